@@ -16,7 +16,9 @@ use crate::ops_tzdb::iana_names;
 use crate::rng::Rng;
 use serde_json::{json, Value};
 
-pub const QUICK_ZONES: [&str; 42] = [
+pub const QUICK_ZONES: [&str; 48] = [
+    // (the first six: zones sharing a 16-byte identifier prefix with different rules, queried in the same provider sessions)
+    "America/Indiana/Indianapolis", "America/Indiana/Knox", "America/Indiana/Tell_City", "America/Argentina/Buenos_Aires", "America/Argentina/San_Luis", "America/Argentina/Ushuaia",
     "Europe/Dublin", "America/New_York", "Australia/Sydney", "Asia/Kolkata", "Africa/Casablanca", "Etc/GMT+5", "UTC",
     "Pacific/Apia", "America/St_Johns", "Asia/Kathmandu", "Europe/London", "Europe/Berlin", "Europe/Lisbon", "Europe/Moscow",
     "Europe/Chisinau", "Asia/Gaza", "Asia/Jerusalem", "Asia/Tehran", "Asia/Tokyo", "Asia/Kabul", "Asia/Pyongyang",
